@@ -42,6 +42,7 @@ structure PS where
   registered   : List Nat := []     -- sockets in proxy.connections
   closed       : List Nat := []     -- sockets the proxy has closed
   accepted     : List Nat := []     -- every client socket ever accepted
+  everReg      : List Nat := []     -- every socket ever put into proxy.connections (ghost)
 deriving Repr, DecidableEq
 
 inductive Action where
@@ -53,6 +54,7 @@ inductive Action where
   | register
   | fbWake | fbClose | fbJoin
   | stopBegin | stopWake | stopClose
+  | linkEnd (x : Nat)           -- a link's writer has finished: it closes its destination and unregisters it
 deriving Repr, DecidableEq
 
 /-- One step; `none` when the action is not enabled. -/
@@ -77,7 +79,7 @@ def step (s : PS) : Action → Option PS
     | _ => none
   | .register =>
     match s.acc with
-    | .registering c u => some { s with acc := .accepting, registered := c :: u :: s.registered }
+    | .registering c u => some { s with acc := .accepting, registered := c :: u :: s.registered, everReg := c :: u :: s.everReg }
     | _ => none
   | .fbWake =>
     if s.fb = .waitDying ∧ s.tombDying then some { s with fb := .closeListener } else none
@@ -91,6 +93,10 @@ def step (s : PS) : Action → Option PS
     if s.stop = .waiting ∧ s.tombDead then some { s with stop := .closing } else none
   | .stopClose =>
     if s.stop = .closing then some { s with stop := .returned, closed := s.registered ++ s.closed } else none
+  | .linkEnd x =>
+    -- `ToxicLink.write`: dest.Close(), then RemoveConnection(<the link's own name>), the key under
+    -- which `server` registered that very socket (facts `tie_registry`)
+    if x ∈ s.registered then some { s with closed := x :: s.closed, registered := s.registered.filter (· != x) } else none
 
 /-- Run a schedule (disabled actions are skipped: they cannot happen). -/
 def run (s : PS) : List Action → PS
